@@ -24,7 +24,10 @@ KEY_POOLS = {
     "bool": [True, False],
 }
 AGGS = ["sum", "mean", "min", "max", "count", "stdev"]
-APPLY = {"len": len, "first": lambda vs: vs[0] if vs else None, "nn": lambda vs: sum(1 for v in vs if v is not None)}
+APPLY = {"len": len, "first": lambda vs: vs[0] if vs else None, "nn": lambda vs: sum(1 for v in vs if v is not None),
+         # a callback that works in place on the list it is given (a typical median helper does)
+         "rev": lambda vs: (vs.reverse(), len(vs))[1]}
+OFFSETS = [1700000000, 1e9, 123456789.0, -1e8]
 
 
 def gen_case(rng):
@@ -56,14 +59,20 @@ def gen_case(rng):
     if rng.random() < 0.45:
         for nm in rng.sample(["n", "f", "z"], rng.randint(1, 2)):
             apply.append({"name": nm, "col": rng.randrange(nv), "f": rng.choice(list(APPLY))})
+        if len(apply) == 2 and rng.random() < 0.6:
+            apply[1]["col"] = apply[0]["col"]       # two callbacks over one column
     meta = {"op": "case", "kkinds": kkinds, "knames": knames, "vnames": vnames, "vkinds": vkinds, "kspec": kspec,
             "aggs": aggs, "apply": apply, "single": rng.random() < 0.5, "fn": "aggregate"}
     if apply and rng.random() < 0.4:
         meta["fault_at"] = rng.randint(0, 5)
+    # some numeric columns sit on a large offset with a small spread (timestamps, ids): the
+    # textbook two-pass variance is exact there, shortcuts are not
+    offs = [rng.choice(OFFSETS) if (vkinds[j] != "str" and rng.random() < 0.2) else None for j in range(nv)]
     trace = [meta]
     for _ in range(nrows):
         keys = [None if rng.random() < p_knone else rng.choice(pools[c]) for c in range(nk)]
         vals = [None if rng.random() < p_vnone else V.pick_value(rng, vkinds[j], 0.0) for j in range(nv)]
+        vals = [v if (v is None or offs[j] is None or isinstance(v, bool) or abs(v) > 1000) else offs[j] + v for j, v in enumerate(vals)]
         trace.append({"op": "row", "k": V.enc_list(keys), "v": V.enc_list(vals)})
     return trace
 
@@ -285,7 +294,7 @@ def _result(trace, s):
 def run_index(check, seed, idx):
     engine.prepare_process()
     s = engine.seed_for(check, seed, idx)
-    return _result(gen_case(random.Random(s)), s)
+    return _result(json.loads(json.dumps(gen_case(random.Random(s)))), s)
 
 
 def replay(check, trace):
@@ -293,3 +302,94 @@ def replay(check, trace):
     r = _result(trace, None)
     r["log"] = [json.dumps(x, sort_keys=True) for x in trace]
     return r
+
+
+# ----------------------------------------------------------------------------
+# history part: aggregates inside histories that write to key / value columns under identity reuse
+# ----------------------------------------------------------------------------
+from simkit.engine import Oracle, Violation
+
+
+class C12H(Oracle):
+    prop = "C12"
+
+    def after(self, env, rec, out, ctx, pre):
+        if rec["op"] != "agg" or rec.get("fn") != "aggregate" or out["st"] == "skip":
+            return []
+        from oracles.c09 import resolve_cols
+        from simkit.ops import _APPLY
+        w = env.world
+        te = w.handles.get(rec["h"])
+        if te is None:
+            return []
+        viols = []
+        if te.eid in env.prev and env.prev[te.eid] != env.cur.get(te.eid):
+            viols.append(Violation("C12", "C12/changed-on-callback-failure" if out["injected"] else "C12/wrong-value",
+                                   "aggregate changed the table it was called on", {"how": "input-modified", "history": True}))
+        if out["injected"]:
+            env.probe("c12h_callback_failed")
+            return viols
+        if out["st"] != "ok" or out["res"] is None:
+            return viols
+        res = w.entries.get(out["res"])
+        if res is None or not res.is_table:
+            return viols
+        sig = {"history": True}
+        try:
+            T = te.obj
+            n = len(T)
+            keys = resolve_cols(T, rec["over"])
+            if keys is None or any(len(k) != n for k in keys) or n == 0:
+                return viols
+            groups = {}
+            for i in range(n):
+                groups.setdefault(tuple(k[i] for k in keys), []).append(i)
+            glist = list(groups.items())
+            rc = [list(c) for c in res.obj.cols()]
+            order = []
+            for a in AGGS:
+                specs = rec.get(a + "_over")
+                if specs:
+                    vals = resolve_cols(T, specs)
+                    if vals is None:
+                        return viols
+                    order.extend((a, v) for v in vals)
+            applies = rec.get("apply", [])
+            if len(rc) != len(keys) + len(order) + len(applies):
+                viols.append(Violation("C12", "C12/wrong-groups", "aggregate inside a history: %d result columns for %d keys + %d aggregates + %d apply" % (
+                    len(rc), len(keys), len(order), len(applies)), dict(sig, how="column-count")))
+                return viols
+            env.probe("c12h_aggregates_checked")
+            nk = len(keys)
+            got_keys = [tuple(V.tv(rc[c][g]) for c in range(nk)) for g in range(len(rc[0]))] if rc else []
+            want_keys = [tuple(V.tv(x) for x in k) for k, _ in glist]
+            if got_keys != want_keys:
+                how = "order" if sorted(got_keys) == sorted(want_keys) else "keys"
+                viols.append(Violation("C12", "C12/wrong-groups", "aggregate inside a history: groups %s, group-by-hand over the table's current contents gives %s" % (got_keys, want_keys), dict(sig, how=how)))
+                return viols
+            for pos, (a, vals) in enumerate(order):
+                col = rc[nk + pos]
+                for g, (k, idxs) in enumerate(glist):
+                    try:
+                        want = _model(a, [vals[i] for i in idxs])
+                    except Exception as ex:
+                        ex = None
+                        return viols
+                    if not _close(col[g], want, a):
+                        viols.append(Violation("C12", "C12/wrong-value", "aggregate inside a history: %s for group %r is %r, the textbook value over the current contents is %r" % (a, k, col[g], want), dict(sig, how="value:" + a)))
+                        return viols
+            for pos, (a, (nm, f)) in enumerate(zip(applies, ctx.ffuncs)):
+                vals = resolve_cols(T, [a["col"]])
+                if vals is None:
+                    return viols
+                wantc = [[vals[0][i] for i in idxs] for _, idxs in glist]
+                if len(f.calls) != len(glist):
+                    viols.append(Violation("C12", "C12/callback-count", "apply %r called %d times for %d groups" % (nm, len(f.calls), len(glist)), dict(sig, how="count")))
+                    return viols
+                if [[V.tv(x) for x in c] for c in f.calls] != [[V.tv(x) for x in c] for c in wantc]:
+                    viols.append(Violation("C12", "C12/callback-args", "apply %r received %s, expected each group's values in row order: %s" % (nm, f.calls, wantc), dict(sig, how="args")))
+                    return viols
+                env.probe("c12h_apply_checked")
+        except Exception as ex:
+            ex = None
+        return viols
